@@ -407,7 +407,7 @@ def _events_for_text(job):
                             except BaseException:  # noqa
                                 pass
                     if rule.can_apply_to(nodes2[k]):
-                        if k % 2:
+                        if k % 4 == 1:
                             # ... and searched (find_nodes stamps its in-order indices on these very nodes) before they are re-linked
                             for _, _, r in persistent:
                                 try:
@@ -416,7 +416,7 @@ def _events_for_text(job):
                                     pass
                         root2 = rule.apply_to(nodes2[k]).result.get_root()
                         out.extend(reprobe_event(root2, persistent, text, "inplace:%s@%d" % (name, k)))
-                        if k % 2 and len(inorder(root2)) <= 40:
+                        if k % 4 == 1 and len(inorder(root2)) <= 40:
                             # the search repeated on the re-linked tree itself (not on a copy): indices as the tree is NOW
                             for nb, ob, rb in persistent:
                                 pe = probe_event(root2, nb, ob, rb, "%s  =[in place %s@%d]=>  %s" % (text, name, k, str(root2)), own_tree=True)
